@@ -272,10 +272,7 @@ func checkMain(id, tier string) int {
 	}
 	start := time.Now()
 	base := baseSeed(tier)
-	total := c.Runs[tier]
-	if total == 0 {
-		total = c.Runs["quick"]
-	}
+	total := runsFor(c, tier)
 	if v := envInt("VERIF_RUNS", 0); v > 0 {
 		total = v
 	}
@@ -319,7 +316,11 @@ func checkMain(id, tier string) int {
 			}
 			out := filepath.Join(tmp, fmt.Sprintf("w%d.json", w))
 			cmd := exec.Command(self, "worker", id, tier, strconv.FormatUint(base, 10), strconv.Itoa(from), strconv.Itoa(to), out)
-			cmd.Env = append(os.Environ(), "GOMAXPROCS=2")
+			cmd.Env = append(os.Environ(), "GOMAXPROCS="+strconv.Itoa(envInt("VERIF_WPROCS", 2)))
+			if os.Getenv("GOGC") == "" {
+				// allocation-heavy short runs: fewer collections scale better across worker processes
+				cmd.Env = append(cmd.Env, "GOGC=400")
+			}
 			ob, err := cmd.CombinedOutput()
 			results[w].log = string(ob)
 			b, rerr := os.ReadFile(out)
@@ -443,7 +444,7 @@ func reportViolation(c *Check, f Found) string {
 	rp := Replay{Property: c.ID, Rule: v.Rule, Sig: v.Sig, Seed: f.Scenario.Seed, Message: v.Msg, Scenario: sc}
 	dir := filepath.Join(verifRoot(), "replays")
 	os.MkdirAll(dir, 0o755)
-	path := filepath.Join(dir, fmt.Sprintf("%s-%d.json", c.ID, f.Scenario.Seed))
+	path := filepath.Join(dir, fmt.Sprintf("%s-%d-%08x.json", c.ID, f.Scenario.Seed, uint32(h64([]byte(v.Rule+"|"+v.Sig)))))
 	b, _ := json.MarshalIndent(&rp, "", " ")
 	os.WriteFile(path, b, 0o644)
 	return path
